@@ -7410,11 +7410,12 @@ func ruleCastNumbers(w *World, r *Report) {
 	key := "fn=" + fname(fn)
 	have := assertedTypes(fn, func(v ssa.Value) bool { return v == ssa.Value(fn.Params[0]) })
 	var missing []string
-	for _, t := range []string{"int", "int64"} {
-		if !have[t] {
+	for t := range goNumericTypes {
+		if t != "float64" && !have[t] {
 			missing = append(missing, t)
 		}
 	}
+	sort.Strings(missing)
 	if len(missing) > 0 {
 		r.violation("CAST-NUMBERS", key, w.Pos(fn.Pos()), "cast has no case for "+strings.Join(missing, ", ")+": such a number inside an array is compared as a structure and never equals a JSON number")
 		return
@@ -7555,6 +7556,96 @@ func rulePrepLoadTolerant(prop string) ruleFn {
 			r.violation("PREP-LOAD-TOLERANT", key, w.PosOf(bad), "this refusal also applies while the location is being loaded: one stored record that predates it makes the location unloadable")
 		default:
 			r.ok("PREP-LOAD-TOLERANT", key, w.Pos(prep.Pos()), itoa(n)+" refusals of PrepareFact's own, none applied at load")
+		}
+	}
+}
+
+// numericCanon: fn (or a function it calls with a value derived from its parameter, two levels deep) has a type
+// switch over its parameter with a case for every Go integer kind and float32.
+func numericCanon(fn *ssa.Function, depth int) (bool, []string) {
+	if fn == nil || len(fn.Blocks) == 0 || len(fn.Params) == 0 {
+		return false, nil
+	}
+	var best []string
+	for _, p := range fn.Params {
+		have := assertedTypes(fn, func(v ssa.Value) bool { return v == ssa.Value(p) })
+		if len(have) == 0 {
+			continue
+		}
+		var missing []string
+		for t := range goNumericTypes {
+			if t != "float64" && !have[t] {
+				missing = append(missing, t)
+			}
+		}
+		sort.Strings(missing)
+		if len(missing) == 0 {
+			return true, nil
+		}
+		if best == nil || len(missing) < len(best) {
+			best = missing
+		}
+	}
+	if depth > 0 {
+		ok := false
+		allInstrs(fn, func(in ssa.Instruction) {
+			if c := callOf(in); c != nil && c.StaticCallee() != nil && c.StaticCallee() != fn {
+				if y, _ := numericCanon(c.StaticCallee(), depth-1); y {
+					ok = true
+				}
+			}
+		})
+		if ok {
+			return true, nil
+		}
+	}
+	return false, best
+}
+
+// IDX-CANON (C01, C05): the rule index sees numbers the way the matcher sees them.
+func ruleIdxCanon(prop string) ruleFn {
+	return func(w *World, r *Report) {
+		r.Rule("IDX-CANON", "the matcher compares numbers as float64 (CAST-NUMBERS), and the rule index files a number under a key made from its float64 rendering; its sorter orders only float64, int, string and bool.  A `when` or an event made by a Go caller or a script holds other integer kinds (otto exports an integral value as int64): `{\"n\":[1,2]}` with int64 members is `not sortable` — the rule is refused, or every event that holds such an array fails for all rules.  Therefore every exported method of PatternIndex that takes a map hands mapToPairs a value that went through a function with a case for every Go integer kind (a canonicaliser), as CastMatcher does for the matcher", 3)
+		mtp := w.Func("core", "mapToPairs")
+		n := 0
+		for _, fn := range w.Funcs {
+			if w.RelPkg(fn) != "core" || isTestFile(w, fn) || fn.Signature.Recv() == nil || fn.Object() == nil || !fn.Object().Exported() {
+				continue
+			}
+			if nt := namedOf(fn.Signature.Recv().Type()); nt == nil || nt.Obj().Name() != "PatternIndex" {
+				continue
+			}
+			allInstrs(fn, func(in ssa.Instruction) {
+				c := callOf(in)
+				if c == nil || c.StaticCallee() != mtp || len(c.Args) < 2 {
+					return
+				}
+				n++
+				key := "fn=" + fname(fn)
+				why := ""
+				canon := dependsOn(c.Args[1], func(v ssa.Value) bool {
+					cc, ok := v.(*ssa.Call)
+					if !ok || cc.Common().StaticCallee() == nil {
+						return false
+					}
+					y, missing := numericCanon(cc.Common().StaticCallee(), 2)
+					if !y && missing != nil {
+						why = fname(cc.Common().StaticCallee()) + " has no case for " + strings.Join(missing, ", ")
+					}
+					return y
+				})
+				if canon {
+					r.ok("IDX-CANON", key, w.PosOf(in), "the map is canonicalised before it is taken apart")
+				} else {
+					if why == "" {
+						why = "the caller's map is taken apart as it is"
+					}
+					r.violation("IDX-CANON", key, w.PosOf(in), why+": an int64 (what a script's number is) inside an array makes the pattern or the event `not sortable`")
+				}
+			})
+		}
+		if n == 0 {
+			r.exempt("IDX-CANON", "type=core.PatternIndex", "", "no exported method of PatternIndex calls mapToPairs: shape not recognised, not decided")
 		}
 	}
 }
